@@ -2,26 +2,22 @@
 // Use of this source code is governed by a BSD-style
 // license that can be found in the LICENSE file.
 
-package interp
+package main
 
 import (
-	"bytes"
 	"fmt"
 	"go/constant"
 	"go/token"
 	"go/types"
-	"os"
-	"reflect"
-	"strings"
 	"unsafe"
 
 	"golang.org/x/tools/go/ssa"
-	"golang.org/x/tools/internal/typeparams"
-)
+	)
 
 // If the target program panics, the interpreter panics with this type.
 type targetPanic struct {
-	v value
+	v     value
+	where string
 }
 
 func (p targetPanic) String() string {
@@ -220,7 +216,7 @@ func zero(t types.Type) value {
 		case types.String:
 			return ""
 		case types.UnsafePointer:
-			return unsafe.Pointer(nil)
+			return unsafePtr{}
 		default:
 			panic(fmt.Sprint("zero for unexpected type:", t))
 		}
@@ -256,88 +252,19 @@ func zero(t types.Type) value {
 		}
 		return s
 	case *types.Chan:
-		return chan value(nil)
+		return (*vchan)(nil)
 	case *types.Map:
-		if usesBuiltinMap(t.Key()) {
-			return map[value]value(nil)
-		}
-		return (*hashmap)(nil)
+		return (*omap)(nil)
 	case *types.Signature:
 		return (*ssa.Function)(nil)
 	}
 	panic(fmt.Sprint("zero: unexpected ", t))
 }
 
-// slice returns x[lo:hi:max].  Any of lo, hi and max may be nil.
-func slice(x, lo, hi, max value) value {
-	var Len, Cap int
-	switch x := x.(type) {
-	case string:
-		Len = len(x)
-	case []value:
-		Len = len(x)
-		Cap = cap(x)
-	case *value: // *array
-		a := (*x).(array)
-		Len = len(a)
-		Cap = cap(a)
-	}
-
-	l := int64(0)
-	if lo != nil {
-		l = asInt64(lo)
-	}
-
-	h := int64(Len)
-	if hi != nil {
-		h = asInt64(hi)
-	}
-
-	m := int64(Cap)
-	if max != nil {
-		m = asInt64(max)
-	}
-
-	switch x := x.(type) {
-	case string:
-		return x[l:h]
-	case []value:
-		return x[l:h:m]
-	case *value: // *array
-		a := (*x).(array)
-		return []value(a)[l:h:m]
-	}
-	panic(fmt.Sprintf("slice: unexpected X type: %T", x))
-}
-
-// lookup returns x[idx] where x is a map.
-func lookup(instr *ssa.Lookup, x, idx value) value {
-	switch x := x.(type) { // map or string
-	case map[value]value, *hashmap:
-		var v value
-		var ok bool
-		switch x := x.(type) {
-		case map[value]value:
-			v, ok = x[idx]
-		case *hashmap:
-			v = x.lookup(idx.(hashable))
-			ok = v != nil
-		}
-		if !ok {
-			v = zero(instr.X.Type().Underlying().(*types.Map).Elem())
-		}
-		if instr.CommaOk {
-			v = tuple{v, ok}
-		}
-		return v
-	}
-	panic(fmt.Sprintf("unexpected x type in Lookup: %T", x))
-}
-
 // binop implements all arithmetic and logical binary operators for
 // numeric datatypes and strings.  Both operands must have identical
 // dynamic type.
-func binop(op token.Token, t types.Type, x, y value) value {
+func cbinop(op token.Token, t types.Type, x, y value) value {
 	switch op {
 	case token.ADD:
 		switch x.(type) {
@@ -733,12 +660,6 @@ func binop(op token.Token, t types.Type, x, y value) value {
 			return x.(string) <= y.(string)
 		}
 
-	case token.EQL:
-		return eqnil(t, x, y)
-
-	case token.NEQ:
-		return !eqnil(t, x, y)
-
 	case token.GTR:
 		switch x.(type) {
 		case int:
@@ -806,49 +727,8 @@ func binop(op token.Token, t types.Type, x, y value) value {
 	panic(fmt.Sprintf("invalid binary op: %T %s %T", x, op, y))
 }
 
-// eqnil returns the comparison x == y using the equivalence relation
-// appropriate for type t.
-// If t is a reference type, at most one of x or y may be a nil value
-// of that type.
-func eqnil(t types.Type, x, y value) bool {
-	switch t.Underlying().(type) {
-	case *types.Map, *types.Signature, *types.Slice:
-		// Since these types don't support comparison,
-		// one of the operands must be a literal nil.
-		switch x := x.(type) {
-		case *hashmap:
-			return (x != nil) == (y.(*hashmap) != nil)
-		case map[value]value:
-			return (x != nil) == (y.(map[value]value) != nil)
-		case *ssa.Function:
-			switch y := y.(type) {
-			case *ssa.Function:
-				return (x != nil) == (y != nil)
-			case *closure:
-				return true
-			}
-		case *closure:
-			return (x != nil) == (y.(*ssa.Function) != nil)
-		case []value:
-			return (x != nil) == (y.([]value) != nil)
-		}
-		panic(fmt.Sprintf("eqnil(%s): illegal dynamic type: %T", t, x))
-	}
-
-	return equals(t, x, y)
-}
-
-func unop(instr *ssa.UnOp, x value) value {
+func cunop(instr *ssa.UnOp, x value) value {
 	switch instr.Op {
-	case token.ARROW: // receive
-		v, ok := <-x.(chan value)
-		if !ok {
-			v = zero(instr.X.Type().Underlying().(*types.Chan).Elem())
-		}
-		if instr.CommaOk {
-			v = tuple{v, ok}
-		}
-		return v
 	case token.SUB:
 		switch x := x.(type) {
 		case int:
@@ -882,8 +762,6 @@ func unop(instr *ssa.UnOp, x value) value {
 		case complex128:
 			return -x
 		}
-	case token.MUL:
-		return load(typeparams.MustDeref(instr.X.Type()), x.(*value))
 	case token.NOT:
 		return !x.(bool)
 	case token.XOR:
@@ -949,172 +827,6 @@ func typeAssert(i *interpreter, instr *ssa.TypeAssert, itf iface) value {
 	return v
 }
 
-// This variable is no longer used but remains to prevent build breakage.
-var CapturedOutput *bytes.Buffer
-
-// callBuiltin interprets a call to builtin fn with arguments args,
-// returning its result.
-func callBuiltin(caller *frame, callpos token.Pos, fn *ssa.Builtin, args []value) value {
-	switch fn.Name() {
-	case "append":
-		if len(args) == 1 {
-			return args[0]
-		}
-		if s, ok := args[1].(string); ok {
-			// append([]byte, ...string) []byte
-			arg0 := args[0].([]value)
-			for i := 0; i < len(s); i++ {
-				arg0 = append(arg0, s[i])
-			}
-			return arg0
-		}
-		// append([]T, ...[]T) []T
-		return append(args[0].([]value), args[1].([]value)...)
-
-	case "copy": // copy([]T, []T) int or copy([]byte, string) int
-		src := args[1]
-		if _, ok := src.(string); ok {
-			params := fn.Type().(*types.Signature).Params()
-			src = conv(params.At(0).Type(), params.At(1).Type(), src)
-		}
-		return copy(args[0].([]value), src.([]value))
-
-	case "close": // close(chan T)
-		close(args[0].(chan value))
-		return nil
-
-	case "delete": // delete(map[K]value, K)
-		switch m := args[0].(type) {
-		case map[value]value:
-			delete(m, args[1])
-		case *hashmap:
-			m.delete(args[1].(hashable))
-		default:
-			panic(fmt.Sprintf("illegal map type: %T", m))
-		}
-		return nil
-
-	case "print", "println": // print(any, ...)
-		ln := fn.Name() == "println"
-		var buf bytes.Buffer
-		for i, arg := range args {
-			if i > 0 && ln {
-				buf.WriteRune(' ')
-			}
-			buf.WriteString(toString(arg))
-		}
-		if ln {
-			buf.WriteRune('\n')
-		}
-		os.Stderr.Write(buf.Bytes())
-		return nil
-
-	case "len":
-		switch x := args[0].(type) {
-		case string:
-			return len(x)
-		case array:
-			return len(x)
-		case *value:
-			return len((*x).(array))
-		case []value:
-			return len(x)
-		case map[value]value:
-			return len(x)
-		case *hashmap:
-			return x.len()
-		case chan value:
-			return len(x)
-		default:
-			panic(fmt.Sprintf("len: illegal operand: %T", x))
-		}
-
-	case "cap":
-		switch x := args[0].(type) {
-		case array:
-			return cap(x)
-		case *value:
-			return cap((*x).(array))
-		case []value:
-			return cap(x)
-		case chan value:
-			return cap(x)
-		default:
-			panic(fmt.Sprintf("cap: illegal operand: %T", x))
-		}
-
-	case "min":
-		return foldLeft(min, args)
-	case "max":
-		return foldLeft(max, args)
-
-	case "real":
-		switch c := args[0].(type) {
-		case complex64:
-			return real(c)
-		case complex128:
-			return real(c)
-		default:
-			panic(fmt.Sprintf("real: illegal operand: %T", c))
-		}
-
-	case "imag":
-		switch c := args[0].(type) {
-		case complex64:
-			return imag(c)
-		case complex128:
-			return imag(c)
-		default:
-			panic(fmt.Sprintf("imag: illegal operand: %T", c))
-		}
-
-	case "complex":
-		switch f := args[0].(type) {
-		case float32:
-			return complex(f, args[1].(float32))
-		case float64:
-			return complex(f, args[1].(float64))
-		default:
-			panic(fmt.Sprintf("complex: illegal operand: %T", f))
-		}
-
-	case "panic":
-		// ssa.Panic handles most cases; this is only for "go
-		// panic" or "defer panic".
-		panic(targetPanic{args[0]})
-
-	case "recover":
-		return doRecover(caller)
-
-	case "ssa:wrapnilchk":
-		recv := args[0]
-		if recv.(*value) == nil {
-			recvType := args[1]
-			methodName := args[2]
-			panic(fmt.Sprintf("value method (%s).%s called using nil *%s pointer",
-				recvType, methodName, recvType))
-		}
-		return recv
-
-	case "ssa:deferstack":
-		return &caller.defers
-	}
-
-	panic("unknown built-in: " + fn.Name())
-}
-
-func rangeIter(x value, t types.Type) iter {
-	switch x := x.(type) {
-	case map[value]value:
-		return &mapIter{iter: reflect.ValueOf(x).MapRange()}
-	case *hashmap:
-		return &hashmapIter{iter: reflect.ValueOf(x.entries()).MapRange()}
-	case string:
-		return &stringIter{Reader: strings.NewReader(x)}
-	}
-	panic(fmt.Sprintf("cannot range over %T", x))
-}
-
 // widen widens a basic typed value x to the widest type of its
 // category, one of:
 //
@@ -1124,7 +836,7 @@ func rangeIter(x value, t types.Type) iter {
 // cases we have to consider.
 func widen(x value) value {
 	switch y := x.(type) {
-	case bool, int64, uint64, float64, complex128, string, unsafe.Pointer:
+	case bool, int64, uint64, float64, complex128, string, unsafePtr:
 		return x
 	case int:
 		return int64(y)
@@ -1155,7 +867,7 @@ func widen(x value) value {
 // conv converts the value x of type t_src to type t_dst and returns
 // the result.
 // Possible cases are described with the ssa.Convert operator.
-func conv(t_dst, t_src types.Type, x value) value {
+func cconv(t_dst, t_src types.Type, x value) value {
 	ut_src := t_src.Underlying()
 	ut_dst := t_dst.Underlying()
 
@@ -1191,7 +903,7 @@ func conv(t_dst, t_src types.Type, x value) value {
 		case *types.Basic:
 			// *value to unsafe.Pointer?
 			if ut_dst.Kind() == types.UnsafePointer {
-				return unsafe.Pointer(x.(*value))
+				return unsafePtr{p: x.(*value)}
 			}
 		}
 
@@ -1268,6 +980,16 @@ func conv(t_dst, t_src types.Type, x value) value {
 			// To at least preserve type-safety, we'll
 			// just return the zero value of the
 			// destination type.
+			up := x.(unsafePtr)
+			if _, ok := ut_dst.(*types.Pointer); ok {
+				if up.p == nil {
+					return (*value)(nil)
+				}
+				return up.p
+			}
+			if b, ok := ut_dst.(*types.Basic); ok && b.Kind() == types.Uintptr {
+				return uintptr(unsafe.Pointer(up.p))
+			}
 			return zero(t_dst)
 		}
 
@@ -1432,7 +1154,7 @@ func min(x, y value) value {
 	}
 
 	// return (y < x) ? y : x
-	if binop(token.LSS, nil, y, x).(bool) {
+	if cbinop(token.LSS, nil, y, x).(bool) {
 		return y
 	}
 	return x
@@ -1447,7 +1169,7 @@ func max(x, y value) value {
 	}
 
 	// return (y > x) ? y : x
-	if binop(token.GTR, nil, y, x).(bool) {
+	if cbinop(token.GTR, nil, y, x).(bool) {
 		return y
 	}
 	return x
